@@ -5,6 +5,12 @@ from harness.props.c01 import C01
 
 class C05(RunProp):
     id = 'C05'
+
+    def extract_tables(self, repo):
+        d = dict(RunProp.extract_tables(self, repo))
+        from harness.pyres2lean import emit_c05      # translator tie (DESIGN D.2a 2e): the detail-naming code
+        d['TTV/Generated/DetailSrc.lean'] = emit_c05(repo)
+        return d
     rule = C01.rule
     manifest = {
         'text': 'Theorems (same Lean model of TestCase.run/RunTest and same quantifier as C01: all test programs, any nesting of cleanups and '
